@@ -226,3 +226,55 @@ func VerifC04_ValidateSequence() {
 		sym.Assert(chain.Len() == n0+2 && chain.TipSets[n0+1].Epoch == 12+int64(n0), "prefix 2: both suffixes, in order")
 	}
 }
+
+// VerifCertSeq (harness helper for other packages): n valid, store-admissible
+// certificates for instances first.. under the evolving tables verifTable(j),
+// signed (ideal aggregate) by the three strongest members (a strong quorum of every table), each
+// finalizing two tipsets on top of the head of its predecessor.
+func VerifCertSeq(first uint64, n int) ([]*FinalityCertificate, []gpbft.PowerEntries) {
+	tables := []gpbft.PowerEntries{verifTable(0)}
+	var out []*FinalityCertificate
+	for j := 0; j < n; j++ {
+		table, next := verifTable(j), verifTable(j+1)
+		be := int64(10 + 2*j)
+		chain := gpbft.VerifChain(be, byte(be), byte(be+1), byte(be+2))
+		supp := gpbft.SupplementalData{}
+		var err error
+		if supp.PowerTable, err = MakePowerTableCID(next); err != nil {
+			panic(err)
+		}
+		payload := gpbft.Payload{Instance: first + uint64(j), Phase: gpbft.DECIDE_PHASE, SupplementalData: supp, Value: chain}
+		out = append(out, &FinalityCertificate{
+			GPBFTInstance: first + uint64(j), ECChain: chain, SupplementalData: supp,
+			Signers:         bitfield.NewFromSet([]uint64{0, 1, 2}),
+			Signature:       gpbft.VerifAggregateSig(table.PublicKeys(), []int{0, 1, 2}, payload.MarshalForSigning(verifNN)),
+			PowerTableDelta: MakePowerTableDiff(table, next),
+		})
+		tables = append(tables, next)
+	}
+	return out, tables
+}
+
+// VerifForge returns an invalid variant of a valid certificate of VerifCertSeq
+// (j = its position): 0 aggregate of a different signer set, 1 under-powered
+// signer set with its correct aggregate, 2 delta (and committed table) of a
+// different table under the old signature, 3 signed for another instance.
+func VerifForge(c *FinalityCertificate, j int, kind int) *FinalityCertificate {
+	f := *c
+	table := verifTable(j)
+	payload := gpbft.Payload{Instance: c.GPBFTInstance, Phase: gpbft.DECIDE_PHASE, SupplementalData: c.SupplementalData, Value: c.ECChain}
+	switch kind {
+	case 0:
+		f.Signature = gpbft.VerifAggregateSig(table.PublicKeys(), []int{0, 1, 3}, payload.MarshalForSigning(verifNN))
+	case 1:
+		f.Signers = bitfield.NewFromSet([]uint64{1, 2})
+		f.Signature = gpbft.VerifAggregateSig(table.PublicKeys(), []int{1, 2}, payload.MarshalForSigning(verifNN))
+	case 2:
+		f.PowerTableDelta = MakePowerTableDiff(table, verifTable(j+2))
+		f.SupplementalData.PowerTable, _ = MakePowerTableCID(verifTable(j + 2))
+	default:
+		payload.Instance++
+		f.Signature = gpbft.VerifAggregateSig(table.PublicKeys(), []int{0, 1, 2}, payload.MarshalForSigning(verifNN))
+	}
+	return &f
+}
